@@ -328,10 +328,38 @@ fn optb(o: Option<bool>) -> String {
     }
 }
 
-fn fmt_frame(buf_ptr: usize, frame: &Frame) -> String {
+/// are the two verification hooks of the crate compiled in?  Without them (a tree whose hook code
+/// no longer compiles) the harness still runs, in quiet mode only: no recorded-configuration
+/// dumps, no frame extents.
+const HOOKS: bool = cfg!(bma400_verif);
+
+#[cfg(bma400_verif)]
+macro_rules! shadow_of {
+    ($dev:expr) => {
+        Some($dev.verif_shadow())
+    };
+}
+#[cfg(not(bma400_verif))]
+macro_rules! shadow_of {
+    ($dev:expr) => {{
+        let _ = &$dev;
+        None::<[(u8, u8); 57]>
+    }};
+}
+
+#[cfg(bma400_verif)]
+fn frame_extent(buf_ptr: usize, frame: &Frame) -> (usize, usize) {
     let sl = frame.verif_slice();
     let start = sl.as_ptr() as usize - buf_ptr;
-    let stop = start + sl.len();
+    (start, start + sl.len())
+}
+#[cfg(not(bma400_verif))]
+fn frame_extent(_buf_ptr: usize, _frame: &Frame) -> (usize, usize) {
+    (0, 0)
+}
+
+fn fmt_frame(buf_ptr: usize, frame: &Frame) -> String {
+    let (start, stop) = frame_extent(buf_ptr, frame);
     let r = catch_unwind(AssertUnwindSafe(|| {
         let t = match frame.frame_type() {
             FrameType::Data => "D",
@@ -852,12 +880,12 @@ macro_rules! run_ops {
             let r = catch_unwind(AssertUnwindSafe(|| run_op!(dev, $sim, &toks)));
             match r {
                 Ok(res) => {
-                    let sh = dev.verif_shadow();
-                    $out.push(obs_line($quiet, &$sim, &Some(sh), &res));
+                    let sh = shadow_of!(dev);
+                    $out.push(obs_line($quiet, &$sim, &sh, &res));
                 }
                 Err(_) => {
-                    let sh = dev.verif_shadow();
-                    $out.push(obs_line($quiet, &$sim, &Some(sh), "panic"));
+                    let sh = shadow_of!(dev);
+                    $out.push(obs_line($quiet, &$sim, &sh, "panic"));
                     break;
                 }
             }
@@ -896,6 +924,9 @@ fn run_case(line: &str) -> String {
             panic!("bad header token {}", tok);
         }
     }
+    if !HOOKS {
+        assert!(quiet, "built without the verification hooks: quiet cases only");
+    }
     let sim: Shared = Rc::new(RefCell::new(Sim::power_on(&low, pos, neg, fifo)));
     sim.borrow_mut().fails = ctor_faults;
     sim.borrow_mut().dummy = dummy;
@@ -906,7 +937,7 @@ fn run_case(line: &str) -> String {
             let r = catch_unwind(AssertUnwindSafe(|| BMA400::new_i2c(SimI2c(sim.clone()))));
             match r {
                 Ok(Ok(dev)) => {
-                    out.push(obs_line(quiet, &sim, &Some(dev.verif_shadow()), "ok:"));
+                    out.push(obs_line(quiet, &sim, &shadow_of!(dev), "ok:"));
                     run_ops!(dev, sim, ops, quiet, out);
                 }
                 Ok(Err(e)) => out.push(obs_line(quiet, &sim, &None, &e.fmt_err())),
@@ -923,7 +954,7 @@ fn run_case(line: &str) -> String {
             }));
             match r {
                 Ok(Ok(dev)) => {
-                    out.push(obs_line(quiet, &sim, &Some(dev.verif_shadow()), "ok:"));
+                    out.push(obs_line(quiet, &sim, &shadow_of!(dev), "ok:"));
                     run_ops!(dev, sim, ops, quiet, out);
                 }
                 Ok(Err(e)) => out.push(obs_line(quiet, &sim, &None, &e.fmt_err())),
